@@ -29,6 +29,7 @@ Partial operations of Go, as explicit arms here: `WrapErr` with a nil error; `wa
 `(nil, nil)` when the scope has no blocks (every caller dereferences the nil scope at once:
 `WithScope` → `newScope.CurrentBlock()`, `MergeScope` → `other.blockSet`, `Field` → `sw.blockSet`);
 `SetDescription` on a nil `rootBlock`; `fullPath[len-1]`; `gotTags.items[len-1]`;
+`gotQualifiers.items[0]` / `items[len-1]`;
 `remaining[0]` / `remaining[len-1]`; `ss.Required[idx]` / `ss.Optional[idx]`.
 -/
 namespace J5V.Walker
@@ -364,10 +365,12 @@ def walkQualifiers (env : Env) : List TagValue → Scope → BlockSpec → M (Sc
       if !tagSpec.isBlock then do
         checkBang env sc tagSpec qualifier
         setAttribute env (fuelOf env) sc [tagSpec.fieldName] [] (.tag qualifier) false
-        match rest.head?, rest.getLast? with
-        | some first, some last =>
-          errAt "unexpected-qualifier" ⟨first.span.start, last.span.end_⟩
-        | _, _ => pure (sc, spec)
+        if rest.isEmpty then pure (sc, spec)
+        else
+          match rest.head?, rest.getLast? with
+          | some first, some last =>
+            errAt "unexpected-qualifier" ⟨first.span.start, last.span.end_⟩
+          | _, _ => M.panic "index out of range (gotQualifiers.items[0] / items[len-1])"
       else
         match qualifier.reference with
         | none => M.err (.mk0 "needs-reference: qualifier needs to be a reference to specify a block")
